@@ -366,15 +366,45 @@ fn forgeries<S: Setup>(built: &Built<S>, honest: &Traces<S::E>, publics: &[S::E]
             });
         }
     }
-    // --- class 4: a slot's value changed on every table, dependants not re-derived
+    // --- class 4: a slot's value changed on every table, dependants not re-derived. Besides
+    // random slots, up to three bool-checked slots get a change that leaves the base limb alone
+    // (upper limbs only: one limb, or a pair that cancels in any linear fold of the limbs).
     let w0 = witness_vec::<S>(honest);
+    let mut picks: Vec<(WitnessId, Option<S::E>)> = vec![];
+    if S::D > 1 {
+        let bools: Vec<WitnessId> = c
+            .ops
+            .iter()
+            .filter_map(|o| match o {
+                Op::Alu { kind: AluOpKind::BoolCheck, a, .. } => Some(*a),
+                _ => None,
+            })
+            .collect();
+        for _ in 0..bools.len().min(3) {
+            let s = bools[rng.random_range(0..bools.len())];
+            let d = 1 + rng.random::<u64>() % (S::order() - 1);
+            let mut limbs = vec![0u64; S::D];
+            let i = 1 + rng.random_range(0..S::D - 1);
+            limbs[i] = d;
+            if S::D >= 3 && rng.random_range(0..2u32) == 0 {
+                let mut j = 1 + rng.random_range(0..S::D - 1);
+                if j == i {
+                    j = if i + 1 < S::D { i + 1 } else { 1 };
+                }
+                limbs[j] = S::order() - d;
+            }
+            picks.push((s, Some(S::el(&limbs))));
+        }
+    }
     for _ in 0..per_class {
         if c.witness_count == 0 {
             break;
         }
-        let s = WitnessId(rng.random_range(0..c.witness_count));
+        picks.push((WitnessId(rng.random_range(0..c.witness_count)), None));
+    }
+    for (s, dl) in picks {
         let mut t = honest.clone();
-        let v = w0[s.0 as usize] + delta::<S>(rng);
+        let v = w0[s.0 as usize] + dl.unwrap_or_else(|| delta::<S>(rng));
         set_slot_everywhere::<S>(&mut t, s, v);
         let mut w = w0.clone();
         w[s.0 as usize] = v;
